@@ -35,9 +35,13 @@ def gen_scenario(rng, index):
         pair = gen.comment_lookalike_pair(rng, rng.choice(progs), f"r{index}t{len(progs)}", f"r{index}t{len(progs) + 1}")
         if pair:
             progs.extend(pair)
+    if rng.random() < 0.25:
+        # part of the history, not of the domain: a text the tree rejects (a deployment that went wrong) - nothing it does may
+        # change what valid texts do afterwards
+        progs.append(gen.gen_invalid(rng, rng.choice(progs), f"r{index}t{len(progs)}"))
     texts = []
     for p in progs:
-        texts.append({"tid": p.tid, "text": p.text, "splitters": p.splitters,
+        texts.append({"tid": p.tid, "text": p.text, "splitters": p.splitters, "history_only": p.kind == "invalid",
                       "panel": gen.gen_panel(rng, p, n=rng.choice([6, 8, 10]), ascii_only=rng.random() < 0.7)})
     n_nodes = rng.choice([2, 2, 3, 3, 4, 5])
     nodes = [fleet.gen_env(rng) for _ in range(n_nodes)]
@@ -151,10 +155,29 @@ class Runner:
             if res[0] == "ok":
                 multi[key].add((nd.env["hashseed"], nd.incarnation, nd.name))
 
+        first_build = {}
+
+        def note_build(ni, ti, res, step, how):
+            """The same source text must be accepted everywhere or rejected everywhere (no faults are injected here)."""
+            nd = nodes[ni]
+            obs = {"step": step, "node": nd.name, "incarnation": nd.incarnation, "env": nd.env, "how": how, "outcome": list(res)}
+            construct.setdefault(ti, set()).add(res[0])
+            f = first_build.get(ti)
+            if f is None:
+                first_build[ti] = obs
+            elif f["outcome"][0] != res[0]:
+                raise Violation("construction-differs", {"tid": texts[ti]["tid"], "first": f, "second": obs,
+                                                         "why": "the same source text was accepted at one place / time and rejected at another"})
+
         def ensure_new(ni, slot, ti, step):
             res = nodes[ni].request({"op": "new", "slot": slot, "text": texts[ti]["text"]})
-            construct.setdefault(ti, set()).add(res[0])
+            note_build(ni, ti, res, step, "new")
             if res[0] == "ok":
+                if texts[ti].get("history_only"):
+                    # meant to be rejected; if the tree takes it anyway it is never called (it may have lost its splitters)
+                    nodes[ni].request({"op": "drop", "slot": slot})
+                    model[ni].pop(slot, None)
+                    return ("raise", "HistoryOnly")
                 model[ni][slot] = ti
             return res
 
@@ -169,8 +192,11 @@ class Runner:
                     ni, slot = op["n"], str(op["slot"])
                     if slot in model[ni]:
                         res = nodes[ni].request({"op": "recompile", "slot": slot, "text": texts[op["t"]]["text"]})
-                        construct.setdefault(op["t"], set()).add(res[0])
-                        if res[0] == "ok":
+                        note_build(ni, op["t"], res, step, "recompile")
+                        if res[0] == "ok" and texts[op["t"]].get("history_only"):
+                            nodes[ni].request({"op": "drop", "slot": slot})
+                            model[ni].pop(slot, None)
+                        elif res[0] == "ok":
                             model[ni][slot] = op["t"]
                         self.bump("fault.recompile_cycle")
                 elif k == "drop":
@@ -225,6 +251,8 @@ class Runner:
                     model[ni] = {}
                     for slot, ti in sorted(deployed.items()):     # only the deployed configuration survives
                         ensure_new(ni, slot, ti, step)
+                elif k == "broadcast" and texts[op["t"]].get("history_only"):
+                    pass
                 elif k == "broadcast":
                     ti = op["t"]
                     panel = texts[ti]["panel"]
@@ -284,6 +312,8 @@ def minimise(sc, res, runner, budget=40):
     tix = [i for i, t in enumerate(sc["texts"]) if t["tid"] == d["tid"]][0]
     # 1. direct two-observation scenario (typical for cross-process defects)
     a, b = d["first"], d["second"]
+    if "fields" not in d:
+        d = dict(d, fields={})
     cand = {"index": sc["index"], "texts": [sc["texts"][tix]], "n_slots": 1,
             "nodes": [a["env"], b["env"]],
             "ops": [{"op": "new", "n": 0, "slot": 0, "t": 0}, {"op": "call", "n": 0, "slot": 0, "f": d["fields"]},
